@@ -69,6 +69,7 @@ extern "C" void h_c12_gaussian(unsigned long nd, unsigned long nt, unsigned long
 {
   World *w = make_world(0);
   prm.set_len("depths", unsigned(nd)); prm.set_len("centerline temperatures", unsigned(nt)); prm.set_len("gaussian sigmas", unsigned(ns));
+  prm.set_positive("gaussian sigmas");          // the parser rejects non-positive sigmas (a value error, not a length error); lengths are the subject here
   bool threw = false; PM::Temperature::Gaussian *m = nullptr;
   try { m = new PM::Temperature::Gaussian(w); m->parse_entries(w->parameters); }
   catch (...) { threw = true; }
